@@ -391,6 +391,9 @@ func (d *c05Run) call(name string, f func()) bool {
 		return false
 	}
 	d.c.Unit("library_calls", 1)
+	if d.c.Faulted() {
+		d.c.Unit("damaged:"+name, 1) // per entry point: calls made on a damaged stream
+	}
 	return ok
 }
 
